@@ -566,7 +566,7 @@ func (env *SpecEnv) call(n *ast.CallExpr) *Val {
 			}
 			x.typeFacts(out)
 			return out
-		case "last", "last1", "last2":
+		case "last", "last1", "last2", "last3", "last4":
 			fid, ok := n.Args[0].(*ast.Ident)
 			if !ok {
 				sfail("last(f): f must be a function or method name")
